@@ -284,13 +284,7 @@ func checkVerbose(c *core.Ctx, t *gen.Node, s subject, msg string) {
 		case strings.HasSuffix(l.GoType, ".withMark"):
 			miss("mark", "forced error mark")
 		case l.Barrier || l.Secondary:
-			var hn *gen.Node
-			if len(l.Node.Hidden) > 0 {
-				hn = l.Node.Hidden[0]
-			} else if l.Node.Kind == "newfw" {
-				hn = l.Node.Kids[0]
-			}
-			if hn != nil {
+			if hn := l.Hides; hn != nil {
 				ht := model.Text(hn)
 				for _, f := range strings.Fields(ht) {
 					if tk := tok(f); tk != "" {
